@@ -422,3 +422,191 @@ theorem CH.freeHead {fat : Array Nat} {hs : List Nat} {cur next : Nat} (n : NSH 
     exact hnd.1 (this ▸ hh)
 
 end CfbVerif.Phys
+
+/-! ## no leaks: every sector in use lies on some head's chain -/
+namespace CfbVerif.Phys
+open CfbVerif.Raw
+
+/-- `Cover fat hs`: a cell that says END or holds a regular pointer belongs to the chain of a head
+(table markers — FATSECT, DIFSECT — and FREE cells are not chain members) -/
+def Cover (fat : Array Nat) (hs : List Nat) : Prop :=
+  ∀ x w : Nat, fat[x]? = some w → (w = END ∨ w ≤ MAXREG) → ∃ h ∈ hs, ∃ l, IsChain fat h l ∧ x ∈ l
+
+theorem Cover.sub {fat : Array Nat} {hs hs' : List Nat} (c : Cover fat hs) (hsub : ∀ x ∈ hs, x ∈ hs') : Cover fat hs' := by
+  intro x w hx hw
+  obtain ⟨h, hh, l, cl, hxl⟩ := c x w hx hw
+  exact ⟨h, hsub h hh, l, cl, hxl⟩
+
+theorem Cover.claim {fat fat' : Array Nat} {hs : List Nat} {id : Nat} (c : Cover fat hs)
+    (hframe : ∀ j, j < fat.size → j ≠ id → fat'[j]? = fat[j]?)
+    (hid : fat'[id]? = some END)
+    (hwas : fat[id]? = some FREE ∨ fat.size ≤ id)
+    (hnew : ∀ j v, fat.size ≤ j → j ≠ id → fat'[j]? = some v → MAXREG < v ∧ v ≠ END) : Cover fat' (id :: hs) := by
+  intro x w hx hw
+  by_cases hxi : x = id
+  · subst hxi
+    exact ⟨x, List.mem_cons_self .., [x], IsChain.last hid, by simp⟩
+  · rcases Nat.lt_or_ge x fat.size with hlt | hge
+    · have hx' : fat[x]? = some w := by rw [← hframe x hlt hxi]; exact hx
+      obtain ⟨h, hh, l, cl, hxl⟩ := c x w hx' hw
+      refine ⟨h, List.mem_cons_of_mem _ hh, l, cl.frame ?_, hxl⟩
+      intro y hy
+      obtain ⟨v, hv, hvf⟩ := cl.used y hy
+      refine hframe y (lt_of_get hv) ?_
+      intro e; subst e
+      rcases hwas with hf | hge'
+      · rw [hv] at hf; exact hvf (Option.some.inj hf)
+      · have := lt_of_get hv; omega
+    · have := hnew x w hge hxi hx
+      rcases hw with he | hr
+      · exact absurd he this.2
+      · omega
+
+/-- linking the one-sector chain of `id` behind the END cell `last` -/
+theorem Cover.link {fat : Array Nat} {hs : List Nat} {id last : Nat} (n : NSH fat (id :: hs)) (ch : CH fat (id :: hs))
+    (c : Cover fat (id :: hs)) (hlast : fat[last]? = some END) (hne : last ≠ id) (hidc : fat[id]? = some END) :
+    Cover (fat.setIfInBounds last id) hs := by
+  have hidreg : id ≤ MAXREG := n.head_reg (List.mem_cons_self ..)
+  have hnd := List.nodup_cons.mp n.nodup
+  have cid : IsChain fat id [id] := IsChain.last hidc
+  have get : ∀ i : Nat, i ≠ last → (fat.setIfInBounds last id)[i]? = fat[i]? := by
+    intro i hi; simp only [Array.getElem?_setIfInBounds]; rw [if_neg (fun e => hi e.symm)]
+  -- the chain that ends at `last`
+  obtain ⟨h0, hh0, l0, cl0, hl0⟩ := c last END hlast (Or.inl rfl)
+  have hh0' : h0 ∈ hs := by
+    rcases List.mem_cons.mp hh0 with rfl | hh
+    · have := cl0.unique cid; subst this; simp at hl0; exact absurd hl0 hne
+    · exact hh
+  have hz := cl0.end_is_last hl0 hlast
+  have hidl0 : ∀ x ∈ [id], x ∉ l0 := by
+    intro x hx hxl
+    simp at hx; subst hx
+    have : x = h0 := IsChain.disjoint n (List.mem_cons_self ..) hh0 cid cl0 (by simp) hxl
+    exact hnd.1 (this ▸ hh0')
+  have cnew : IsChain (fat.setIfInBounds last id) h0 (l0 ++ [id]) :=
+    cl0.append cid hz hidreg hidl0 (cl0.nodup n hh0)
+  intro x w hx hw
+  by_cases hxl : x = last
+  · subst hxl
+    exact ⟨h0, hh0', _, cnew, List.mem_append_left _ hl0⟩
+  · rw [get x hxl] at hx
+    obtain ⟨h, hh, l, cl, hxm⟩ := c x w hx hw
+    rcases List.mem_cons.mp hh with rfl | hh'
+    · have := cl.unique cid; subst this
+      simp at hxm; subst hxm
+      exact ⟨h0, hh0', _, cnew, by simp⟩
+    · by_cases hm : last ∈ l
+      · have : h = h0 := IsChain.disjoint n hh hh0 cl cl0 hm hl0
+        subst this
+        have := cl.unique cl0; subst this
+        exact ⟨h, hh', _, cnew, List.mem_append_left _ hxm⟩
+      · refine ⟨h, hh', l, cl.frame ?_, hxm⟩
+        intro y hy
+        exact get y (fun e => hm (by rw [← e]; exact hy))
+
+/-- cutting behind `x` (a regular pointer cell, hence covered) -/
+theorem Cover.cut {fat : Array Nat} {hs : List Nat} {x next : Nat} (n : NSH fat hs) (c : Cover fat hs)
+    (hxn : fat[x]? = some next) (hreg : next ≤ MAXREG) :
+    Cover (fat.setIfInBounds x END) (next :: hs) ∧ CH (fat.setIfInBounds x END) [next] ∧
+    ∃ h0 ∈ hs, ∃ l0, IsChain fat h0 l0 ∧ x ∈ l0 := by
+  obtain ⟨h0, hh0, l0, cl0, hx0⟩ := c x next hxn (Or.inr hreg)
+  obtain ⟨pre, post, e0, c1, c2⟩ := cl0.cut (cl0.nodup n hh0) hx0 hxn hreg
+  have get : ∀ i : Nat, i ≠ x → (fat.setIfInBounds x END)[i]? = fat[i]? := by
+    intro i hi; simp only [Array.getElem?_setIfInBounds]; rw [if_neg (fun e => hi e.symm)]
+  refine ⟨?_, (by intro h hh; simp at hh; subst hh; exact ⟨post, c2⟩), h0, hh0, l0, cl0, hx0⟩
+  intro y w hy hw
+  by_cases hyx : y = x
+  · subst hyx
+    exact ⟨h0, List.mem_cons_of_mem _ hh0, _, c1, by simp⟩
+  · rw [get y hyx] at hy
+    obtain ⟨h, hh, l, cl, hym⟩ := c y w hy hw
+    by_cases he : h = h0
+    · subst he
+      have := cl.unique cl0; subst this
+      rw [e0] at hym
+      rcases List.mem_append.mp hym with hp | hp
+      · exact ⟨h, List.mem_cons_of_mem _ hh, _, c1, hp⟩
+      · exact ⟨next, List.mem_cons_self .., post, c2, hp⟩
+    · refine ⟨h, List.mem_cons_of_mem _ hh, l, cl.frame ?_, hym⟩
+      intro z hz
+      refine get z ?_
+      intro e; subst e
+      exact he (IsChain.disjoint n hh hh0 cl cl0 hz hx0)
+
+/-- freeing the head `cur` -/
+theorem Cover.freeHead {fat : Array Nat} {hs : List Nat} {cur next : Nat} (n : NSH fat (cur :: hs)) (ch : CH fat (cur :: hs))
+    (c : Cover fat (cur :: hs)) (hcur : fat[cur]? = some next) :
+    Cover (fat.setIfInBounds cur FREE) ((if next ≤ MAXREG then [next] else []) ++ hs) := by
+  obtain ⟨l0, cl0⟩ := ch cur (List.mem_cons_self ..)
+  obtain ⟨t, e⟩ := cl0.head
+  subst e
+  have hnd0 := cl0.nodup n (List.mem_cons_self ..)
+  have hlt := lt_of_get hcur
+  have get : ∀ i : Nat, i ≠ cur → (fat.setIfInBounds cur FREE)[i]? = fat[i]? := by
+    intro i hi; simp only [Array.getElem?_setIfInBounds]; rw [if_neg (fun e => hi e.symm)]
+  intro y w hy hw
+  by_cases hyc : y = cur
+  · subst hyc
+    simp [hlt] at hy
+    subst hy
+    rcases hw with he | hr
+    · exact absurd he (by decide)
+    · exact absurd hr (Nat.not_le.mpr MAXREG_lt_FREE)
+  · rw [get y hyc] at hy
+    obtain ⟨h, hh, l, cl, hym⟩ := c y w hy hw
+    rcases List.mem_cons.mp hh with rfl | hh'
+    · have := cl.unique cl0; subst this
+      have hyt : y ∈ t := by
+        rcases List.mem_cons.mp hym with e | e
+        · exact absurd e hyc
+        · exact e
+      -- the chain has a second sector, so `next` is a regular pointer and heads the rest
+      cases cl0 with
+      | last he => cases hyt
+      | cons hab hb hc =>
+        rw [hcur] at hab; cases hab
+        refine ⟨next, ?_, t, (IsChain.cons hcur hb hc).dropHead hnd0 hcur hb, hyt⟩
+        simp [hb]
+    · refine ⟨h, List.mem_append_right _ hh', l, cl.frame ?_, hym⟩
+      intro z hz
+      refine get z ?_
+      intro e; subst e
+      have : h = z := IsChain.disjoint n hh (List.mem_cons_self ..) cl cl0 hz (by simp)
+      exact (List.nodup_cons.mp n.nodup).1 (this ▸ hh')
+
+/-! ## the three together -/
+
+structure NC (fat : Array Nat) (hs : List Nat) : Prop where
+  ns : NSH fat hs
+  ch : CH fat hs
+  cov : Cover fat hs
+
+theorem NC.perm {fat : Array Nat} {hs hs' : List Nat} (n : NC fat hs) (hp : hs.Perm hs') : NC fat hs' :=
+  ⟨n.ns.perm hp, n.ch.sub (fun x hx => hp.mem_iff.mpr hx), n.cov.sub (fun x hx => hp.mem_iff.mp hx)⟩
+
+theorem NC.claim {fat fat' : Array Nat} {hs : List Nat} {id : Nat} (n : NC fat hs)
+    (hb : fat'.size ≤ MAXREG + 1)
+    (hframe : ∀ j, j < fat.size → j ≠ id → fat'[j]? = fat[j]?)
+    (hid : fat'[id]? = some END)
+    (hwas : fat[id]? = some FREE ∨ fat.size ≤ id)
+    (hnew : ∀ j v, fat.size ≤ j → j ≠ id → fat'[j]? = some v → MAXREG < v ∧ v ≠ END) :
+    NC fat' (id :: hs) :=
+  ⟨n.ns.claim hb hframe hid hwas (fun j v hj hne hv => (hnew j v hj hne hv).1),
+   n.ch.claim hframe hid hwas, n.cov.claim hframe hid hwas hnew⟩
+
+theorem NC.link {fat : Array Nat} {hs : List Nat} {id last : Nat} (n : NC fat (id :: hs))
+    (hlast : fat[last]? = some END) (hne : last ≠ id) (hidc : fat[id]? = some END) :
+    NC (fat.setIfInBounds last id) hs :=
+  ⟨n.ns.link hlast hne, CH.link n.ns n.ch hlast hne, Cover.link n.ns n.ch n.cov hlast hne hidc⟩
+
+theorem NC.cut {fat : Array Nat} {hs : List Nat} {x next : Nat} (n : NC fat hs)
+    (hxn : fat[x]? = some next) (hreg : next ≤ MAXREG) : NC (fat.setIfInBounds x END) (next :: hs) := by
+  obtain ⟨cov', _, hx⟩ := Cover.cut n.ns n.cov hxn hreg
+  exact ⟨n.ns.cut hxn hreg, CH.cut n.ns n.ch hx hxn hreg, cov'⟩
+
+theorem NC.freeHead {fat : Array Nat} {hs : List Nat} {cur next : Nat} (n : NC fat (cur :: hs))
+    (hcur : fat[cur]? = some next) (hnf : next ≠ FREE) :
+    NC (fat.setIfInBounds cur FREE) ((if next ≤ MAXREG then [next] else []) ++ hs) :=
+  ⟨n.ns.freeHead hcur hnf, CH.freeHead n.ns n.ch hcur, Cover.freeHead n.ns n.ch n.cov hcur⟩
+
+end CfbVerif.Phys
